@@ -175,8 +175,9 @@ fn word_find(xs: &mut Xstate) -> Xresult {
     let pat_bytes = pat
         .bytestr()
         .ok_or_else(|| Xerr::ToBytestrError(pat.clone()))?;
+    // bytestr() serves a value at any bit offset of its buffer; slice() would depend on that offset
     let rest_bytes = rest
-        .slice()
+        .bytestr()
         .ok_or_else(|| Xerr::BitstrSliceError(rest.clone()))?;
     if let Some(pos) = memmem::find(&rest_bytes, &pat_bytes) {
         let offs = rest.start() + pos * 8;
